@@ -240,8 +240,16 @@ pub fn damage(rd: &Rendered, op: usize, r: &mut Rng) -> Option<(String, String)>
         2 => {
             let c: Vec<&Mark> = rd.marks.iter().filter(|m| matches!(m.kind, MarkKind::EntryLine { .. })).collect();
             let m = pick(r, &c)?;
-            let MarkKind::EntryLine { line_start, indent, .. } = m.kind else { unreachable!() };
+            let MarkKind::EntryLine { line_start, indent, parent_indent, first } = m.kind else { unreachable!() };
             let mut s = t.clone();
+            if first && indent as isize >= parent_indent + 2 && r.chance(1, 3) {
+                // the first entry of a nested collection: enough blanks to be nested, then a tab in
+                // front of the entry (a block entry starts right after its indentation blanks)
+                let lo = (parent_indent + 1) as usize;
+                let keep = lo + r.below(indent - lo);
+                s.replace_range(line_start..line_start + indent, &format!("{}\t", " ".repeat(keep)));
+                return Some((s, format!("indentation of the first entry line at byte {line_start}: {keep} blanks kept, the rest replaced by a tab")));
+            }
             s.replace_range(line_start..line_start + indent, "\t");
             Some((s, format!("indentation of the entry line at byte {line_start} replaced by a tab")))
         }
@@ -505,7 +513,7 @@ pub fn run_c06(tier: &str, seed: u64, shard: u64, nshards: u64, scale: f64, stat
         key.push(op as u8);
         stats.eval(Some(&key));
         if let Some(cfg) = c06_accepts(&bad) {
-            let detail = if op == 2 { tab_context(&rd.text, &bad) } else { String::new() };
+            let detail = if op == 2 { format!("{}{}", if note.contains("blanks kept") { "/tab-after-blanks" } else { "" }, tab_context(&rd.text, &bad)) } else { String::new() };
             viol(
                 stats,
                 format!("C06/accepted/{}{detail}", OPERATORS[op]),
